@@ -189,7 +189,7 @@ func coverageTemplates() [][]any {
 		J{"t": "if", "neg": true, "branches": []any{J{"c": eVar("zz"), "body": []any{nText("u")}}}},
 		J{"t": "case", "e": eVar("q"), "pre": []any{}, "whens": []any{J{"vals": []any{eLit(vInt(1)), eLit(vInt(2))}, "body": []any{nText("w")}}, J{"else": true, "vals": []any{}, "body": []any{nText("x")}}}},
 		J{"t": "for", "tag": "for", "var": bs("x"), "coll": eVar("a"), "rev": true, "lim": eLit(vInt(3)), "off": eLit(vInt(0)),
-			"body":  []any{J{"t": "cycle", "group": bs("g1"), "vals": []any{bs("p"), bs("q")}}, nObj(eProp(eVar("forloop"), "index")),
+			"body": []any{J{"t": "cycle", "group": bs("g1"), "vals": []any{bs("p"), bs("q")}}, nObj(eProp(eVar("forloop"), "index")),
 				J{"t": "if", "branches": []any{J{"c": eCmp("==", eProp(eVar("forloop"), "index"), eLit(vInt(2))), "body": []any{J{"t": "continue"}}}}},
 				J{"t": "if", "branches": []any{J{"c": eCmp("==", eProp(eVar("forloop"), "index"), eLit(vInt(5))), "body": []any{J{"t": "break"}}}}}, nObj(eVar("x"))},
 			"else": []any{nText("E")}},
